@@ -6,68 +6,215 @@ import FsModel.RefAdm
 import FsProofs.Lemmas.QueryLemmas
 
 namespace Fs.C06
-open Fs Fs.Ref
+open Fs Fs.Ref Fs.QueryLemmas
+
+/- ORIGINAL STATEMENT (false as written: nothing forces the root of an arbitrary `State` to be a
+directory):
+
+    theorem ref_error_truthful (s : State) (op : Op) (e : Err) (h : (step s op).2 = .err e) :
+        e ∈ adm s op ∨ e = .OperationFailed
+
+Counterexample: `s = { root := .file [], closed := false }`, `op = .remove "/"`: the reference
+answers `FileExpected` (the root is no file *name*), while `adm` lists for a root that is a file
+only `ResourceNotFound` and `RemoveRootError`.  This is the only failing class (root is a file and
+`remove` is applied to the root); every reachable state has a directory root
+(`step_root_isDir`), so the statement carries that hypothesis. -/
+theorem ref_error_truthful_counterexample :
+    ∃ (s : State) (op : Op) (e : Err), (step s op).2 = .err e ∧
+      ¬ (e ∈ adm s op ∨ e = .OperationFailed) :=
+  ⟨{ root := .file [], closed := false }, .remove ['/'], .FileExpected, by decide⟩
 
 /-- every error the reference reports is one whose documented condition holds
 (`OperationFailed` marks the loose mid-way failure of a bulk operation) -/
-theorem ref_error_truthful (s : State) (op : Op) (e : Err) (h : (step s op).2 = .err e) :
+theorem ref_error_truthful (s : State) (op : Op) (e : Err) (hroot : s.root.isDir = true)
+    (h : (step s op).2 = .err e) :
     e ∈ adm s op ∨ e = .OperationFailed := by
-  sorry
+  cases hc : s.closed
+  · rcases op_cases op with rfl | ⟨p, m, rfl⟩ | ⟨p, hp, hno⟩ | ⟨a, b, hp⟩
+    · cases h
+    · rw [step_openbin s p m hc] at h
+      rw [adm_openbin s p m hc]
+      left
+      cases hv : validate p with
+      | err e' =>
+        rw [hv] at h
+        split at h <;> simp_all [fail]
+      | ok cs =>
+        rw [hv] at h
+        simp only
+        split at h
+        · next hm =>
+          cases h
+          cases hpm : parseBinMode m <;> simp_all [adm1]
+        · exact step1_truthful s cs _ e hroot h
+    · rw [step_one s op p hc hp hno] at h
+      rw [adm_one s op p hc hp hno]
+      left
+      cases hv : validate p with
+      | err e' => rw [hv] at h; simp_all [fail]
+      | ok cs => rw [hv] at h; exact step1_truthful s cs _ e hroot h
+    · rw [step_two s op a b hc hp] at h
+      rw [adm_two s op a b hc hp]
+      cases hva : validate a <;> cases hvb : validate b <;> rw [hva] at h <;> try rw [hvb] at h
+      all_goals simp only at h ⊢
+      · exact step2_truthful s _ _ op e h
+      all_goals (left; simp_all [fail])
+  · by_cases hop : op = .close
+    · subst hop; cases h
+    · rw [step_closed s op hop hc] at h
+      rw [adm_closed s op hop hc]
+      cases h; simp
 
 /-- a failed reference step leaves the state exactly as it was -/
 theorem failed_step_unchanged (s : State) (op : Op) (e : Err) (h : (step s op).2 = .err e) :
     (step s op).1 = s := by
-  sorry
+  by_cases hop : op = .close
+  · subst hop; cases h
+  · exact (step_shape s op hop).err_state h
 
 /-- nothing is admissible for an operation that has no precondition to violate -/
-theorem close_never_fails (s : State) : (step s .close).2 = .ok .unit ∧ adm s .close = [] := by
-  sorry
+theorem close_never_fails (s : State) : (step s .close).2 = .ok .unit ∧ adm s .close = [] :=
+  ⟨rfl, rfl⟩
 
 /-! ### the documented condition of each class (what `adm` means) -/
 
 theorem closed_only_when_closed (s : State) (op : Op) (h : Err.FilesystemClosed ∈ adm s op) :
     s.closed = true := by
-  sorry
+  cases hc : s.closed
+  · exfalso
+    rcases op_cases op with rfl | ⟨p, m, rfl⟩ | ⟨p, hp, hno⟩ | ⟨a, b, hp⟩
+    · simp [adm] at h
+    · rw [adm_openbin s p m hc] at h
+      cases hv : validate p with
+      | err e' =>
+        rw [hv] at h
+        simp only at h
+        rcases validate_err_cases p e' hv with rfl | rfl <;> split at h <;> simp at h
+      | ok cs =>
+        rw [hv] at h
+        simp only [adm1, admFileArg, admFileTarget] at h
+        split at h <;> simp at h
+    · rcases mem_adm_one hc hp hno h with hv | ⟨cs, hv, h⟩
+      · rcases validate_err_cases p _ hv with h | h <;> cases h
+      · cases op <;> simp [adm1, admDirArg, admFileArg, admFileTarget] at h
+        all_goals first | exact absurd rfl (hno _ _) | (split at h <;> simp at h)
+    · rw [adm_two s op a b hc hp] at h
+      cases hva : validate a <;> cases hvb : validate b <;> rw [hva, hvb] at h <;> simp only at h
+      · cases op <;> simp [adm2, admDirArg, admFileArg, admFileTarget] at h
+        all_goals (split at h <;> simp at h)
+      · rcases validate_err_cases _ _ hvb with rfl | rfl <;> simp [admAny] at h
+        all_goals (split at h <;> simp at h)
+      · rcases validate_err_cases _ _ hva with rfl | rfl <;> simp [admAny] at h
+        all_goals (split at h <;> simp at h)
+      · rcases validate_err_cases _ _ hva with rfl | rfl <;>
+          rcases validate_err_cases _ _ hvb with rfl | rfl <;> simp at h
+  · rfl
 
 theorem removeroot_truthful (s : State) (p : Str) (h : Err.RemoveRootError ∈ adm s (.removedir p))
     (hc : s.closed = false) : validate p = .ok [] := by
-  sorry
+  rcases mem_adm_one hc rfl (by simp) h with hv | ⟨cs, hv, h⟩
+  · rcases validate_err_cases p _ hv with h | h <;> cases h
+  · simp [adm1, admDirArg] at h
+    rcases h with rfl | h
+    · exact hv
+    · split at h <;> simp at h
 
 theorem notempty_truthful (s : State) (p : Str) (cs : List Name) (hc : s.closed = false)
     (hv : validate p = .ok cs) (h : Err.DirectoryNotEmpty ∈ adm s (.removedir p)) :
     ∃ es, s.root.get cs = some (.dir es) ∧ es ≠ [] := by
-  sorry
+  rcases mem_adm_one hc rfl (by simp) h with hv' | ⟨cs', hv', h⟩
+  · rw [hv] at hv'; cases hv'
+  · rw [hv] at hv'; cases hv'
+    simp [adm1, admDirArg] at h
+    split at h
+    · next es heq => exact ⟨es, heq, by simpa using h⟩
+    · simp at h
 
 theorem destination_exists_truthful (s : State) (a b : Str) (ow : Bool) (ca cb : List Name)
     (hc : s.closed = false) (ha : validate a = .ok ca) (hb : validate b = .ok cb)
     (h : Err.DestinationExists ∈ adm s (.move a b ow)) :
     ow = false ∧ (s.root.get cb).isSome = true := by
-  sorry
+  rw [adm_two s _ a b hc rfl, ha, hb] at h
+  simp [adm2, admFileArg, admFileTarget] at h
+  obtain ⟨h1, h2⟩ := h
+  refine ⟨h2, ?_⟩
+  unfold kindAt at h1
+  cases hg : Node.get cb s.root <;> simp_all
 
 theorem illegal_destination_truthful (s : State) (a b : Str) (c : Bool) (ca cb : List Name)
     (hc : s.closed = false) (ha : validate a = .ok ca) (hb : validate b = .ok cb)
     (h : Err.IllegalDestination ∈ adm s (.copydir a b c)) : ca <+: cb := by
-  sorry
+  rw [adm_two s _ a b hc rfl, ha, hb] at h
+  simp [adm2, admDirArg] at h
+  exact (isPrefix_iff ca cb).1 h
 
 theorem backref_truthful (s : State) (p : Str) (hc : s.closed = false)
     (h : Err.IllegalBackReference ∈ adm s (.listdir p)) :
     Path.normpath p = .err .IllegalBackReference := by
-  sorry
+  rcases mem_adm_one hc rfl (by simp) h with hv | ⟨cs, hv, h⟩
+  · rcases validate_err p _ hv with ⟨h, _⟩ | ⟨_, h⟩
+    · cases h
+    · exact h
+  · simp [adm1, admDirArg] at h
 
 theorem invalid_chars_truthful (s : State) (p : Str) (hc : s.closed = false)
     (h : Err.InvalidCharsInPath ∈ adm s (.listdir p)) : '\x00' ∈ p := by
-  sorry
+  rcases mem_adm_one hc rfl (by simp) h with hv | ⟨cs, hv, h⟩
+  · rcases validate_err p _ hv with ⟨_, h⟩ | ⟨h, _⟩
+    · exact h
+    · cases h
+  · simp [adm1, admDirArg] at h
 
 theorem value_error_truthful (s : State) (p m : Str) (hc : s.closed = false)
     (h : Err.ValueError ∈ adm s (.openbin p m)) : parseBinMode m = none := by
-  sorry
+  rw [adm_openbin s p m hc] at h
+  cases hv : validate p with
+  | err e' =>
+    rw [hv] at h
+    simp only at h
+    split at h
+    · next hm => simpa using hm
+    · rcases validate_err_cases p e' hv with rfl | rfl <;> simp at h
+  | ok cs =>
+    rw [hv] at h
+    simp only [adm1, admFileArg, admFileTarget] at h
+    split at h
+    · assumption
+    · simp at h
 
 /-- a mode string is accepted iff it is non-empty, starts with r/w/x/a, uses only the
 characters `rwxab+` (no `t` for binary opens) -/
 theorem mode_accept_iff (m : Str) :
     (parseBinMode m).isSome = true ↔
       (∃ c rest, m = c :: rest ∧ c ∈ ['r', 'w', 'x', 'a']) ∧ (∀ x ∈ m, x ∈ ['r', 'w', 'x', 'a', 'b', '+']) := by
-  sorry
+  cases m with
+  | nil => simp [parseBinMode]
+  | cons c rest =>
+    have key : (∀ x ∈ c :: rest, x ∈ ['r', 'w', 'x', 'a', 'b', '+']) ↔
+        ((c :: rest).all (fun x => modeValidChars.contains x) = true ∧ (c :: rest).contains 't' = false) := by
+      rw [List.all_eq_true]
+      constructor
+      · intro h
+        refine ⟨fun x hx => ?_, ?_⟩
+        · simpa using ((mode_chars x).2 (h x hx)).1
+        · rw [Bool.eq_false_iff]; intro ht
+          have ht' : 't' ∈ c :: rest := by simpa using ht
+          exact absurd (h _ ht') (by decide)
+      · rintro ⟨h1, h2⟩ x hx
+        refine (mode_chars x).1 ⟨by simpa using h1 x hx, ?_⟩
+        rintro rfl
+        have : (c :: rest).contains 't' = true := by simpa using hx
+        rw [h2] at this; cases this
+    have k2 : (∃ c' rest', c :: rest = c' :: rest' ∧ c' ∈ ['r', 'w', 'x', 'a']) ↔
+        ['r', 'w', 'x', 'a'].contains c = true := by
+      constructor
+      · rintro ⟨c', rest', heq, hc⟩; cases heq; simpa using hc
+      · intro h; exact ⟨c, rest, rfl, by simpa using h⟩
+    rw [key, k2]
+    cases hA : (c :: rest).all (fun x => modeValidChars.contains x) <;>
+    cases hB : ['r', 'w', 'x', 'a'].contains c <;>
+    cases hT : (c :: rest).contains 't' <;>
+    simp only [parseBinMode, hA, hB, hT] <;> simp
 
 example : (step State.empty (.removedir "/".toList)).2 = .err .RemoveRootError := by decide
 example : Err.ResourceNotFound ∈ adm State.empty (.readbytes "nope".toList) := by decide
